@@ -59,7 +59,22 @@ func (r *runner) allRanks() []int {
 
 // cleanup empties the storage behind /bs/ through the side door and checks that it is empty.
 func (r *runner) cleanup() error {
-	ctx := context.Background()
+	if !r.srv.canSide {
+		return nil // a new server per history instead
+	}
+	ctx, cancel := context.WithTimeout(context.Background(), 60*time.Second)
+	defer cancel()
+	done := make(chan error, 1)
+	go func() { done <- r.cleanup1(ctx) }()
+	select {
+	case err := <-done:
+		return err
+	case <-time.After(60 * time.Second):
+		return fmt.Errorf("side-door cleanup hangs")
+	}
+}
+
+func (r *runner) cleanup1(ctx context.Context) error {
 	var have []blob.Ref
 	if err := blobserver.EnumerateAll(ctx, r.srv.side, func(sb blob.SizedRef) error {
 		have = append(have, sb.Ref)
@@ -95,7 +110,7 @@ func (r *runner) reset() {
 		sizes[i] = len(b.Data)
 		kinds[i] = b.Kind
 	}
-	r.lg.Emit(gate.Event{"ev": "reset", "cfg": r.cfg, "via": r.via, "root": r.rootName, "leg": r.leg, "h": r.hi,
+	r.lg.Emit(gate.Event{"ev": "reset", "cfg": r.cfg, "via": r.via, "root": map[bool]string{true: "bs", false: "root"}[r.rootName == "/bs"], "leg": r.leg, "h": r.hi,
 		"sizes": sizes, "kinds": kinds, "canRemove": false, "readOnly": false, "subfetch": "no", "pre": []any{}})
 }
 
@@ -176,6 +191,9 @@ func (o oneByteReader) Read(p []byte) (int, error) {
 
 // xremove removes blobs through direct storage access (the environment's move in HTTPProto).
 func (r *runner) xremove(ranks []int) {
+	if !r.srv.canSide {
+		return
+	}
 	err := r.srv.side.RemoveBlobs(context.Background(), r.refs(ranks))
 	ev := gate.Event{"ev": "xremove", "bs": intsAny(ranks), "res": classify(err)}
 	if err != nil {
@@ -571,7 +589,7 @@ func (r *runner) big(direct int) {
 		}
 		r.srv.takeHub()
 		pre := intsAny(all)
-		r.lg.Emit(gate.Event{"ev": "reset", "cfg": r.cfg, "via": r.via, "root": r.rootName, "leg": r.leg, "h": r.hi,
+		r.lg.Emit(gate.Event{"ev": "reset", "cfg": r.cfg, "via": r.via, "root": map[bool]string{true: "bs", false: "root"}[r.rootName == "/bs"], "leg": r.leg, "h": r.hi,
 			"sizes": func() []any {
 				s := make([]any, n)
 				for i, b := range r.u.Blobs {
